@@ -236,8 +236,6 @@ func (rhs *randHashShuffler) IsInterfaceNil() bool {
 }
 
 func shuffleNodes(arg shuffleNodesArg) (*ResUpdateNodes, error) {
-	allLeaving := append(arg.unstakeLeaving, arg.additionalLeaving...)
-
 	waitingCopy := copyValidatorMap(arg.waiting)
 	eligibleCopy := copyValidatorMap(arg.eligible)
 
@@ -293,7 +291,11 @@ func shuffleNodes(arg shuffleNodesArg) (*ResUpdateNodes, error) {
 		log.Warn("distributeValidators shuffledOut failed", "error", err)
 	}
 
-	actualLeaving, _ := removeValidatorsFromList(allLeaving, stillRemainingInLeaving, len(stillRemainingInLeaving))
+	// only leaving requests of validators that were found in the eligible or waiting lists can be honoured
+	allFoundLeaving := make([]Validator, 0, len(remainingUnstakeLeaving)+len(remainingAdditionalLeaving))
+	allFoundLeaving = append(allFoundLeaving, remainingUnstakeLeaving...)
+	allFoundLeaving = append(allFoundLeaving, remainingAdditionalLeaving...)
+	actualLeaving, _ := removeValidatorsFromList(allFoundLeaving, stillRemainingInLeaving, len(stillRemainingInLeaving))
 
 	return &ResUpdateNodes{
 		Eligible:       newEligible,
